@@ -85,12 +85,26 @@ func caseFoldingEqualsRunes(lower, mixed []byte) (int, bool) {
 		mixed = mixed[msz:]
 		matchTotal += msz
 
-		if lr != unicode.ToLower(mr) {
+		if lr != unicode.ToLower(mr) && !inSimpleFoldOrbit(lr, mr) {
 			return 0, false
 		}
 	}
 
 	return matchTotal, len(lower) == 0
+}
+
+// inSimpleFoldOrbit reports whether a and b are case variants of each other
+// in the sense of unicode.SimpleFold. Lower-casing does not cover every pair
+// the regexp engine (and generateCaseNgrams) treats as equal under case
+// folding: 'ſ' (U+017F) and 'K' (U+212A, Kelvin) fold to 's' and 'k' but are
+// their own lower case.
+func inSimpleFoldOrbit(a, b rune) bool {
+	for f := unicode.SimpleFold(b); f != b; f = unicode.SimpleFold(f) {
+		if f == a {
+			return true
+		}
+	}
+	return false
 }
 
 type ngram uint64
